@@ -296,6 +296,14 @@ def build_item(repo: str, blk: dict, report: dict):
     return out
 
 
+def _splice(name: str, repo: str) -> str:
+    """text generated from /repo on this run and spliced into a template at `//@ splice <name>`"""
+    if name == "compose":
+        import compose_verus
+        return compose_verus.render(repo)
+    raise TemplateError(f"unknown splice {name}")
+
+
 def build_unit(repo: str, template: str, out_path: str):
     segs, meta = parse_template(template)
     report = dict(template=os.path.relpath(template, "/verif"), items=[], lost=[])
@@ -303,6 +311,10 @@ def build_unit(repo: str, template: str, out_path: str):
     for kind, payload in segs:
         if kind == "raw":
             for l in payload.split("\n"):
+                if l.strip().startswith("//@ splice "):
+                    for g in _splice(l.strip().split()[2], repo).split("\n"):
+                        lines.append((g, "generated", None))
+                    continue
                 lines.append((l, "spec", None))
         else:
             try:
